@@ -1,7 +1,11 @@
 """C02 — retry discipline: bounded attempts, none after expiry, non-idempotent once."""
+import warnings
+
+import apiharness
+import consolesim
 import sockcheck
 
-LEAN_MODULES = ["PyAirtouch.Props.C02"]
+LEAN_MODULES = ["PyAirtouch.Props.C02", "PyAirtouch.Props.C02At4", "PyAirtouch.Props.C02At5"]
 LEVEL = "proof"
 MONITORS = ["c02a", "c02b", "c02c", "c01a"]
 
@@ -55,7 +59,78 @@ def run(ctx, deep=False):
         items = _boundary_cases() + sockcheck.gen_scripts(ctx.seed * 41 + gen, [("faults", n), ("outage", n // 2)])
         good = sockcheck.judge_family(ctx, "C02", items, MONITORS, gen=gen, nontrivial=_nontrivial)
         sockcheck.validate_against_model(ctx, good, "AT%d" % gen)
-    ctx.assumptions += ["the policy chosen by each public API command is checked at the API layer (policy table)"]
+    api_level(ctx, thorough)
+    ctx.assumptions += ["at the API layer the retry policy of every message the real objects send is judged against the vendor reading of that message "
+                        "(accumulating commands: no retry; own-initiative requests: 1 s lifetime; other commands: the idempotent policy)"]
+
+
+ACCUMULATING = ("toggle", "change", "next", "increase", "decrease")
+
+
+def api_level(ctx, thorough):
+    """every message the real AirTouch4 / AirTouch5 object sends (handshake, refresh after reconnect, every public call with every
+    enum argument) with the retry policy it was given; whether a command accumulates is read off its frame by the vendor reader"""
+    import pyairtouch.api as A
+    import pyairtouch.comms.socket as S
+    from props import c04
+    spec_lines, metas = [], []
+    for gen in (4, 5):
+        for inst in consolesim.installs(gen, thorough):
+            calls = []
+            for ac in inst["acs"]:
+                i = ac["id"]
+                calls += ["call ac %d set_power %s" % (i, p.name) for p in A.AcPowerControl]
+                calls += ["call ac %d set_mode %s %d" % (i, m.name, po) for m in A.AcMode for po in (0, 1)]
+                calls += ["call ac %d set_fan_speed %s" % (i, f.name) for f in A.AcFanSpeed]
+                calls += ["call ac %d set_target_temperature %s" % (i, t) for t in ("21", "22.5", "16", "30")]
+                calls += ["call ac %d set_quick_timer %s duration 5400" % (i, t.name) for t in A.AcTimerType]
+                calls += ["call ac %d clear_quick_timer %s" % (i, t.name) for t in A.AcTimerType]
+            for z in sorted(inst["zones"]):
+                calls += ["call zone %d set_power %s" % (z, p.name) for p in A.ZonePowerState]
+                calls += ["call zone %d set_damper_percentage %d" % (z, d) for d in (0, 35, 100)]
+                calls += ["call zone %d set_target_temperature %s" % (z, t) for t in ("20", "23.4")]
+            calls.append("call at check_for_updates")
+            hs = consolesim.handshake(gen, inst)
+            ops = hs + calls + ["conn 0", "conn 1"]
+            api = apiharness.Api(gen)
+            with warnings.catch_warnings():
+                warnings.simplefilter("ignore")
+                api.run(ops)
+            for idx, op in enumerate(ops):
+                for (msg, pol) in api.op_sent[idx]:
+                    own = not op.startswith("call")
+                    try:
+                        hb, mb, crc, hdr = c04.frame_of(api, msg)
+                    except Exception:  # noqa: BLE001
+                        ctx.count("api:unencodable")
+                        continue
+                    kind = {(4, 0x2A): "2A", (4, 0x2C): "2C"}.get((gen, hdr.message_id))
+                    if gen == 5 and hdr.message_id == 0xC0 and mb[:1] in (b"\x20", b"\x22"):
+                        kind = "C020" if mb[0] == 0x20 else "C022"
+                    spec_lines.append("spec %d %s %s" % (gen, kind, mb.hex()) if kind else "crc -")
+                    metas.append((gen, op, own, pol, kind, type(msg).__name__))
+    readings = ctx.oracle(spec_lines) if spec_lines else []
+    worst = {}
+    for (gen, op, own, pol, kind, mname), r in zip(metas, readings):
+        ctx.case(("api-policy", gen, op, mname))
+        if own:
+            want, why = S.RETRY_CONNECTED, "a request sent on the client's own initiative (handshake / refresh / heartbeat) is discarded unless a connection exists within one second"
+        elif kind and any(("=" + w) in r.split(" changes=")[0] or ("=" + w + "(") in r for w in ACCUMULATING):
+            want, why = S.RETRY_NON_IDEMPOTENT, "the frame reads as an accumulating command (%s): it must be transmitted at most once" % r.split(" changes=")[0][:120]
+        else:
+            want, why = S.RETRY_IDEMPOTENT, "an idempotent command keeps its retries"
+        ctx.count("api:policy:%s" % ("own-initiative" if own else ("accumulating" if want is S.RETRY_NON_IDEMPOTENT else "idempotent")))
+        if (pol.max_retries, pol.max_lifetime) != (want.max_retries, want.max_lifetime):
+            key = "C02:api:%d:%s" % (gen, "own" if own else mname)
+            if key not in worst:
+                worst[key] = (gen, op, mname, pol, want, why)
+    for key, (gen, op, mname, pol, want, why) in worst.items():
+        ctx.violation(key, "AirTouch %d op `%s`: %s sent with retry policy (retries %s, lifetime %s s) but %s (expected retries %s, lifetime %s s)" % (
+            gen, op, mname, pol.max_retries, pol.max_lifetime, why, want.max_retries, want.max_lifetime), kind="input", level="api", gen=gen, op=op,
+            implementation_output=[pol.max_retries, pol.max_lifetime], spec_verdict=why)
+    ctx.coverage["rule"] += (" API level: every message the real AirTouch4 / AirTouch5 objects send during the handshake, after a reconnection and for every public "
+                             "call with every enum argument, with the retry policy given to the socket; a command is accumulating iff the vendor reading of its "
+                             "frame says toggle / change / next / increase / decrease.")
 
 
 def search(ctx):
@@ -64,4 +139,7 @@ def search(ctx):
 
 
 def replay(ctx, data):
+    if data.get("level") == "api":
+        print(data.get("op"), data.get("spec_verdict"))
+        return 1
     return sockcheck.replay(ctx, data)
